@@ -121,3 +121,151 @@ pub fn wal_only_entry_replayed(seg_max: [u64; 2], ts: u64) -> bool {
         r.deltas.iter().any(|d| d.key == "walonly")
     })
 }
+
+// ------------------------------------------------------------------------------------------------------------
+// C13 / C11 / C08 natively: the real async code on in-memory stores
+
+#[derive(Clone)]
+struct FixedTime(u64);
+impl redis_sim::io::TimeSource for FixedTime { fn now_millis(&self) -> u64 { self.0 } }
+
+fn fold_key(r: &redis_sim::streaming::RecoveredState, key: &str) -> Option<redis_sim::replication::state::ReplicatedValue> {
+    let mut acc: Option<redis_sim::replication::state::ReplicatedValue> = r.checkpoint_state.as_ref().and_then(|m| m.get(key).cloned());
+    for d in &r.deltas {
+        if d.key == key { acc = Some(match acc { Some(a) => a.merge(&d.value), None => d.value.clone() }); }
+    }
+    acc
+}
+
+/// real Compactor::compact() between two real RecoveryManager::recover() runs. Segment 0 (never selected: it is made
+/// larger than target_segment_size by padding keys) holds the `outside` update, segments 1.. hold one `inside` update each.
+pub fn compact_then_recover(inside: Vec<redis_sim::replication::state::ReplicationDelta>, outside: Option<redis_sim::replication::state::ReplicationDelta>, now: u64)
+    -> (Option<redis_sim::replication::state::ReplicatedValue>, Option<redis_sim::replication::state::ReplicatedValue>, bool, u64) {
+    use redis_sim::redis::SDS;
+    use redis_sim::replication::lattice::{LamportClock, ReplicaId};
+    use redis_sim::replication::state::{ReplicatedValue, ReplicationDelta};
+    use redis_sim::streaming::{CompactionConfig, Compactor, Compression, InMemoryObjectStore, Manifest, ManifestManager, ObjectStore, RecoveryManager, SegmentInfo, SegmentWriter};
+    let rt = rt();
+    rt.block_on(async move {
+        let store = Arc::new(InMemoryObjectStore::new());
+        let mm = ManifestManager::new((*store).clone(), "t");
+        let mut manifest = Manifest::new(1);
+        let mut next = if outside.is_some() { 0u64 } else { 1u64 };
+        let mut put = |deltas: Vec<ReplicationDelta>| {
+            let mut w = SegmentWriter::new(Compression::None);
+            let (mut mn, mut mx) = (u64::MAX, 0u64);
+            for d in &deltas { w.write_delta(d).unwrap(); mn = mn.min(d.value.timestamp.time); mx = mx.max(d.value.timestamp.time); }
+            let data = w.finish().unwrap();
+            let key = format!("t/segments/segment-{:08}.seg", next);
+            let info = SegmentInfo { id: next, key: key.clone(), record_count: deltas.len() as u32, size_bytes: data.len() as u64, min_timestamp: mn, max_timestamp: mx };
+            next += 1;
+            (key, data, info)
+        };
+        let mut big = 0u64;
+        if let Some(o) = outside {
+            let mut v = vec![o];
+            for i in 0..64 {
+                let c = LamportClock { time: 1, replica_id: ReplicaId(9) };
+                v.push(ReplicationDelta::new(format!("pad-{}", i), ReplicatedValue::with_value(SDS::from_str("padding-padding-padding"), c), ReplicaId(9)));
+            }
+            let (k, data, info) = put(v);
+            big = info.size_bytes;
+            store.put(&k, &data).await.unwrap();
+            manifest.add_segment(info);
+        }
+        let mut small_max = 0u64;
+        for d in inside {
+            let (k, data, info) = put(vec![d]);
+            small_max = small_max.max(info.size_bytes);
+            store.put(&k, &data).await.unwrap();
+            manifest.add_segment(info);
+        }
+        manifest.next_segment_id = next;
+        mm.save(&manifest).await.unwrap();
+        let rec = RecoveryManager::new((*store).clone(), "t", 1);
+        let before = fold_key(&rec.recover().await.unwrap(), "k");
+        let mut cfg = CompactionConfig::test();
+        cfg.tombstone_ttl = std::time::Duration::ZERO;
+        cfg.min_segments_to_compact = 1;
+        cfg.max_segments_per_compaction = 8;
+        cfg.target_segment_size = (small_max + 1) as usize;
+        assert!(big == 0 || big > small_max + 1, "padding did not make the outside segment larger than the compacted ones");
+        let mut comp = Compactor::with_time_source(store.clone(), "t".to_string(), mm.clone(), cfg, FixedTime(now));
+        let res = comp.compact().await.expect("compaction failed");
+        let survives = match &res.segment_created {
+            Some(info) => {
+                let data = store.get(&info.key).await.unwrap();
+                let r = redis_sim::streaming::SegmentReader::open(&data).unwrap();
+                r.deltas().unwrap().any(|d| d.map(|d| d.key == "k").unwrap_or(false))
+            }
+            None => false,
+        };
+        let after = fold_key(&rec.recover().await.unwrap(), "k");
+        (before, after, survives, res.tombstones_removed)
+    })
+}
+
+/// real RecoveryManager::recover(): segment i holds one update of key "s<i>"; returns the ids whose update came back
+pub fn recover_plan(ids: &[u64], min_ts: &[u64], ckpt_last: Option<u64>) -> Vec<u64> {
+    use redis_sim::redis::SDS;
+    use redis_sim::replication::lattice::{LamportClock, ReplicaId};
+    use redis_sim::replication::state::{ReplicatedValue, ReplicationDelta};
+    use redis_sim::streaming::{CheckpointInfo, CheckpointWriter, Compression, InMemoryObjectStore, Manifest, ManifestManager, ObjectStore, RecoveryManager, SegmentInfo, SegmentWriter};
+    let ids = ids.to_vec();
+    let min_ts = min_ts.to_vec();
+    let rt = rt();
+    rt.block_on(async move {
+        let store = InMemoryObjectStore::new();
+        let mm = ManifestManager::new(store.clone(), "t");
+        let mut manifest = Manifest::new(1);
+        for (i, id) in ids.iter().enumerate() {
+            let c = LamportClock { time: min_ts[i], replica_id: ReplicaId(1) };
+            let d = ReplicationDelta::new(format!("s{}", id), ReplicatedValue::with_value(SDS::from_str("v"), c), ReplicaId(1));
+            let mut w = SegmentWriter::new(Compression::None);
+            w.write_delta(&d).unwrap();
+            let data = w.finish().unwrap();
+            let key = format!("t/segments/segment-{:08}.seg", id);
+            store.put(&key, &data).await.unwrap();
+            manifest.segments.push(SegmentInfo { id: *id, key, record_count: 1, size_bytes: data.len() as u64, min_timestamp: min_ts[i], max_timestamp: min_ts[i] });
+        }
+        if let Some(last) = ckpt_last {
+            let data = CheckpointWriter::new(Compression::None).write(std::collections::HashMap::new(), 1, last).unwrap();
+            store.put("t/checkpoints/c.chk", &data).await.unwrap();
+            manifest.checkpoint = Some(CheckpointInfo { key: "t/checkpoints/c.chk".to_string(), timestamp_ms: 1, key_count: 0, last_segment_id: last });
+        }
+        manifest.next_segment_id = 8;
+        mm.save(&manifest).await.unwrap();
+        let rec = RecoveryManager::new(store, "t", 1);
+        let r = rec.recover().await.expect("recover failed");
+        let mut plan = Vec::new();
+        for d in &r.deltas {
+            if let Some(id) = d.key.strip_prefix('s').and_then(|x| x.parse::<u64>().ok()) { plan.push(id); }
+        }
+        plan
+    })
+}
+
+/// real ReplicatedShardActor: clock brought to `clock0` by a remote delta on another key, then the checkpoint entry
+/// enters through the mailbox (ApplyRecoveredState), then SET k <nb> through Execute
+pub fn recovered_then_write(clock0: u64, recovered: redis_sim::replication::state::ReplicatedValue, nb: u8)
+    -> (redis_sim::replication::lattice::LamportClock, Option<u8>) {
+    use redis_sim::production::ReplicatedShardActor;
+    use redis_sim::redis::{Command, SDS};
+    use redis_sim::replication::config::ConsistencyLevel;
+    use redis_sim::replication::lattice::{LamportClock, ReplicaId};
+    use redis_sim::replication::state::{ReplicatedValue, ReplicationDelta};
+    let rt = rt();
+    rt.block_on(async move {
+        let h = ReplicatedShardActor::spawn(ReplicaId(1), ConsistencyLevel::Eventual, 0);
+        if clock0 > 0 {
+            let c = LamportClock { time: clock0 - 1, replica_id: ReplicaId(2) };
+            h.apply_remote_delta(ReplicationDelta::new("z".to_string(), ReplicatedValue::with_value(SDS::from_str("z"), c), ReplicaId(2)));
+        }
+        let peer = recovered.clone();
+        h.apply_recovered_state("k".to_string(), recovered);
+        let (_resp, delta) = h.execute(Command::set("k".to_string(), SDS::new(vec![nb]))).await;
+        let d = delta.expect("SET produced no delta");
+        let on_peer = peer.merge(&d.value);
+        (d.value.timestamp, on_peer.get().map(|s| s.as_bytes()[0]))
+    })
+}
